@@ -74,6 +74,7 @@ def run_typestate(ctx, m):
 def run(ctx):
     m = Model(ctx)
     ts, roots, loaders = run_typestate(ctx, m)
+    rejected_rules(ctx, m)
 
     # ------------------------------------------------------------ state machine
     for v in ts.violations.values():
@@ -265,6 +266,27 @@ def run(ctx):
               "set_time writes only the clock field", "set_time writes %s" % sorted(s["writes"]))
     ctx.assume("valid histories: ids refer to existing orders (an unknown id panics; not part of the property)")
     ctx.extra["typestate_contexts"] = ts.contexts
+
+
+def rejected_rules(ctx, m, rule="rejected"):
+    """`Rejected` is reserved for a market order PLACED while trading is disabled: every write of that status sits in the
+    whole-operation view of place_order, is control-dependent on `trading == false` itself (not on a weaker test such as
+    `!(trading && opposite side non-empty)`), and no other entry point can produce it"""
+    from .model import status_const
+    n = 0
+    for f in [f_ for f_ in m.book_pub_fns() if f_.params and f_.params[0] == "self"]:
+        for S in ("Bid", "Ask"):
+            q = m.sv(f, S)
+            live = q.cfg.reach_from(0)
+            for w in q.writes(field="status"):
+                if w.b not in live or status_const(w.val) != "Rejected":
+                    continue
+                n += 1
+                off = any(a[0] == "bool" and a[2] is False and a[1][0] == "field" and a[1][2] == m.f_trading for a in w.guards)
+                ctx.check(f.name == "place_order" and off, rule, "%s|%s" % (f.short(), S), w.loc(),
+                          "status := Rejected only in place_order under `trading == false`",
+                          "an order can become Rejected in %s under [%s]: Rejected is reserved for market orders placed while trading is disabled" % (f.name, w.gtext()))
+    ctx.check(n >= 2, rule, "census", "-", "%d Rejected writes examined (both sides)" % n)
 
 
 def noop_slice(ctx, m, api, needed, _unused):
